@@ -12,6 +12,8 @@ import (
 	"testing/synctest"
 	"time"
 
+	"github.com/whawty/auth/zzverif/simrand"
+	"github.com/whawty/auth/zzverif/simrandv2"
 	"github.com/whawty/auth/zzverif/simrt"
 )
 
@@ -54,6 +56,8 @@ func inBubble(r *Run, f func(rr *randRecorder)) {
 	var stack string
 	rr := newRandRecorder(r.T.Seed)
 	simrt.NextEpoch() // package-level simsync state of the code under test starts afresh
+	simrand.Reseed(r.T.Seed)
+	simrandv2.Reseed(r.T.Seed)
 	prev := crand.Reader
 	crand.Reader = rr
 	defer func() { crand.Reader = prev }()
